@@ -392,6 +392,16 @@ class ExpSystem(System):
         after = self._obs(cfg, f)
         if before != after:
             bad("C19", "exp.queries_do_not_mutate", {"before": repr(before)[:300], "after": repr(after)[:300]})
+        bb = call(bytes, f)
+        if bb[0] == "ok":
+            kw = {"max_queue_size": cfg["Q"]} if cfg["cls"] == "rot" else {}
+            fl = call(lambda: type(f).frombytes(bb[1], hash_function=self._hf(cfg), **kw))
+            if fl[0] == "ok":
+                probes = self._probes(cfg, st)
+                a1 = [call(f.check, k) for k in probes]
+                a2 = [call(fl[1].check, k) for k in probes]
+                if a1 != a2:
+                    bad("C19", "exp.answers_independent_of_earlier_queries", {"live": repr(a1)[:300], "fresh_load": repr(a2)[:300]})
         if self.cur_depth <= cfg.get("twin_depth", 2):
             div = twin_divergence(self, cfg, st, lambda q: self._ro(cfg, q), lambda x: self._obs(cfg, x.impl))
             if div is not None:
